@@ -249,25 +249,23 @@ fn search<T: Dom>(ctx: &Ctx, rep: &Reporter, phase: &str, cfg: &Cfg, inits: &[(S
 }
 
 struct Plan {
-    main: Cfg,
+    /// searches from the empty region: (label, alphabet + depth)
+    main: Vec<(&'static str, Cfg)>,
     merge_cfg: Cfg,
+    /// only merge results of regions whose history is at most this long are used as seeds
+    seed_pair_depth: usize,
     reseed_depth: u8,
 }
 
 fn plan(thorough: bool) -> Plan {
     let env = |k: &str, d: i64| std::env::var(k).ok().and_then(|v| v.parse().ok()).unwrap_or(d);
+    let narrow = |depth: i64| Cfg { lo: env("C05_LO", -1), hi: env("C05_HI", 6), sizes: vec![1, 2, 4, 8], insert_all_tags: false, spans: vec![0, 3], interval_sizes: vec![1, 4], shifts: vec![1, -1, 4, -4], max_depth: env("C05_DEPTH", depth) as u8 };
+    let wide = |depth: i64| Cfg { lo: -2, hi: 10, sizes: vec![1, 2, 4, 8], insert_all_tags: true, spans: vec![0, 2, 5], interval_sizes: vec![1, 4], shifts: vec![1, -1, 4, -4], max_depth: env("C05_WDEPTH", depth) as u8 };
+    let merge_cfg = |depth: i64| Cfg { lo: 0, hi: env("C05_MHI", 4), sizes: vec![1, 2, 4, 8], insert_all_tags: false, spans: vec![0, 3], interval_sizes: vec![1], shifts: vec![1, -4], max_depth: env("C05_MDEPTH", depth) as u8 };
     if thorough {
-        Plan {
-            main: Cfg { lo: env("C05_LO", -2), hi: env("C05_HI", 10), sizes: vec![1, 2, 4, 8], insert_all_tags: true, spans: vec![0, 2, 5], interval_sizes: vec![1, 4], shifts: vec![1, -1, 4, -4], max_depth: env("C05_DEPTH", 4) as u8 },
-            merge_cfg: Cfg { lo: 0, hi: env("C05_MHI", 4), sizes: vec![1, 2, 4, 8], insert_all_tags: false, spans: vec![0, 3], interval_sizes: vec![1], shifts: vec![1, -4], max_depth: env("C05_MDEPTH", 3) as u8 },
-            reseed_depth: env("C05_RDEPTH", 2) as u8,
-        }
+        Plan { main: vec![("search (offsets -1..6, depth 5)", narrow(5)), ("search (offsets -2..10, depth 4)", wide(4))], merge_cfg: merge_cfg(3), seed_pair_depth: 2, reseed_depth: env("C05_RDEPTH", 2) as u8 }
     } else {
-        Plan {
-            main: Cfg { lo: env("C05_LO", -1), hi: env("C05_HI", 6), sizes: vec![1, 2, 4, 8], insert_all_tags: false, spans: vec![0, 3], interval_sizes: vec![1, 4], shifts: vec![1, -1, 4, -4], max_depth: env("C05_DEPTH", 4) as u8 },
-            merge_cfg: Cfg { lo: 0, hi: env("C05_MHI", 4), sizes: vec![1, 2, 4, 8], insert_all_tags: false, spans: vec![0, 3], interval_sizes: vec![1], shifts: vec![1, -4], max_depth: env("C05_MDEPTH", 2) as u8 },
-            reseed_depth: env("C05_RDEPTH", 2) as u8,
-        }
+        Plan { main: vec![("search (offsets -1..6, depth 4)", narrow(4))], merge_cfg: merge_cfg(2), seed_pair_depth: 2, reseed_depth: env("C05_RDEPTH", 1) as u8 }
     }
 }
 
@@ -276,7 +274,12 @@ fn run_domain<T: Dom>(ctx: &Ctx, rep: &Reporter, plan: &Plan, threads: usize) ->
     let dom = T::NAME;
     let empty = vec![(St::<T>::empty(), Init::Empty)];
     // ---- phase A: search from the empty region
-    let a = search::<T>(ctx, rep, "search", &plan.main, &empty, threads, false);
+    let mut searches = serde_json::Map::new();
+    for (label, cfg) in &plan.main {
+        let a = search::<T>(ctx, rep, label, cfg, &empty, threads, false);
+        let _ = (a.sr_generated, a.mcx_states, a.mcx_transitions);
+        searches.insert(label.to_string(), a.summary);
+    }
     // ---- phase B: all ordered pairs of the regions reached with the merge alphabet
     let m = search::<T>(ctx, rep, "regions for merge", &plan.merge_cfg, &empty, threads, true);
     let regs = &m.regions;
@@ -289,7 +292,11 @@ fn run_domain<T: Dom>(ctx: &Ctx, rep: &Reporter, plan: &Plan, threads: usize) ->
         for j in 0..n {
             let (sb, _, hb) = &regs[j as usize];
             let case = || Case::Merge { dom: dom.to_string(), a: ha.clone(), b: hb.clone(), lo, hi };
-            if let Some(merged) = judge_merge::<T>(rep, sa, sb, &case, lo, hi, &stable) {
+            let merged = judge_merge::<T>(rep, sa, sb, &case, lo, hi, &stable);
+            if ha.len() > plan.seed_pair_depth || hb.len() > plan.seed_pair_depth {
+                continue;
+            }
+            if let Some(merged) = merged {
                 let key = real_cells(&merged.region);
                 let e = acc.entry(key).or_insert((i, j));
                 if (i, j) < *e {
@@ -337,11 +344,10 @@ fn run_domain<T: Dom>(ctx: &Ctx, rep: &Reporter, plan: &Plan, threads: usize) ->
     let mut reseed_cfg = plan.merge_cfg.clone();
     reseed_cfg.max_depth = plan.reseed_depth;
     let c = search::<T>(ctx, rep, "re-seeded from merge results", &reseed_cfg, &seeds, threads, false);
-    let _ = (a.sr_generated, a.mcx_states, a.mcx_transitions);
     json!({
-        "search": a.summary,
+        "searches": Value::Object(searches),
         "regions_for_merge": m.summary,
-        "merge_pairs": {"regions": n, "ordered_pairs_incl_diagonal": n * n, "distinct_results": seeds.len(), "results_not_reached_by_search": new_regions},
+        "merge_pairs": {"regions": n, "ordered_pairs_incl_diagonal": n * n, "seeds (distinct results of pairs with histories <= seed_pair_depth)": seeds.len(), "seeds_not_reached_by_search": new_regions},
         "reseeded": c.summary,
     })
 }
@@ -452,7 +458,8 @@ fn main() {
     ctx.set(
         "bounds",
         json!({
-            "search_alphabet": plan.main,
+            "search_alphabets": plan.main.iter().map(|(l, c)| json!({"label": l, "alphabet": c})).collect::<Vec<_>>(),
+            "seed_pair_depth": plan.seed_pair_depth,
             "merge_alphabet": plan.merge_cfg,
             "reseed_depth": plan.reseed_depth,
             "value_domains": "BitvectorDomain (Top maximal; tags: two constants), DataDomain<BitvectorDomain> (Top not maximal; tags: absolute value, pointer, and their unions with/without the top flag), Taint (Top not maximal)",
